@@ -20,7 +20,7 @@ import numpy as np
 from .core import Machine, Violation
 
 from scinumtools.solver import (  # noqa: E402  (bootstrap has run)
-    ExpressionSolver, AtomBase, Otype,
+    ExpressionSolver, AtomBase, Otype, OperatorBase,
     OperatorPar, OperatorMul, OperatorAdd, OperatorGt, OperatorTruediv,
     OperatorLog, OperatorLog10, OperatorLogb, OperatorExp, OperatorSqrt, OperatorPowb,
     OperatorSin, OperatorCos, OperatorTan, OperatorPow, OperatorSub, OperatorEq,
@@ -384,6 +384,46 @@ def _mk_customop():
     return ExpressionSolver(FaultyAtom, ops, steps)
 
 
+# --- a user-defined operator with a constructor of its own: "x @<expr>;" scales x by the value
+# of <expr>.  The constructor runs in the middle of tokenising, reads its factor text from the
+# live expression and evaluates it with another solver (user code using the library itself)
+class OperatorScale(OperatorBase):
+    symbol: str = '@'
+
+    def __init__(self, expr=None):
+        super().__init__(expr)
+        text = ''
+        while expr.right and not expr.right.startswith(';'):
+            text += expr.right[0]
+            expr.remove(expr.right[0])
+        expr.remove(';')
+        with ExpressionSolver(FaultyAtom) as inner:
+            self.factor = inner.solve(text)
+
+    def operate_unary(self, tokens):
+        tokens.put_left(tokens.get_left() * self.factor)
+
+
+def _mk_userop():
+    operators = {'scale': OperatorScale, 'add': OperatorAdd, 'mul': OperatorMul}
+    steps = [dict(operators=['scale'], otype=Otype.UNARY),
+             dict(operators=['mul'], otype=Otype.BINARY),
+             dict(operators=['add'], otype=Otype.BINARY)]
+    return ExpressionSolver(FaultyAtom, operators, steps)
+
+
+def gen_userop(rng, depth):
+    def term():
+        t = [rng.choice(NUMS + ["foo", "bar"])]
+        if rng.random() < 0.5:
+            t.append("@" + rng.choice(["3", "2*5", "(1+1)", "0.5", "foo", "2+1", "((2))"]) + ";")
+        return t
+    toks = term()
+    for _ in range(rng.randint(0, max(1, depth))):
+        toks += [rng.choice(["+", "*"])] + term()
+    return toks
+
+
 def _mk_unit():
     return ExpressionSolver(unit_atom, {'par': OperatorPar, 'mul': OperatorMul,
                                         'truediv': OperatorTruediv})
@@ -408,9 +448,10 @@ KINDS = {
     "steps": (_mk_steps, "numeric"),
     "unit": (_mk_unit, "unit"),
     "reentrant": (_mk_reentrant, "numeric"),
+    "userop": (_mk_userop, "userop"),
 }
 KIND_ORDER = ["base", "faulty", "string", "subset", "steps", "unit", "factory", "steps2",
-              "arrays", "customop", "nopar", "loose", "inplace", "reentrant"]
+              "arrays", "customop", "nopar", "loose", "inplace", "reentrant", "userop"]
 
 
 # expression generator ---------------------------------------------------------
@@ -570,6 +611,7 @@ CANARIES = {
     "arrays": ["foo", "foo - 1", "foo * 2", "foo + bar", "bar / 2 - foo", "zero + 1"],
     "nopar": ["1", "sqrt(16)+1", "2*3+1", "(4)+1", "exp(0)*2"],
     "loose": ["1", "1+2", "8/2*4", "(1+2)-3", "2*3", "8*2/4"],
+    "userop": ["1", "2 @3; + 1", "3 @2*5; + 1", "4 @(1+1);", "1 + 2*3", "foo @2; * bar @3;"],
     "customop": ["1", "hyp(3; 4)", "pow(2, 3)", "avg[1, 3]*2", "logb(8, 2)+hyp(6; 8)", "(1+2)*3"],
 }
 _DEEP = "(" * 49 + "1+2" + ")" * 49
@@ -595,7 +637,7 @@ def text_fault(tokens, kind, pos, family):
     n = len(tokens)
     order = list(range(pos % n, n)) + list(range(0, pos % n))
     bad = {"numeric": "qux", "subset": "qux", "string": "BAD", "unit": "xyz",
-           "arrays": "qux", "customop": "qux", "nopar": "qux", "loose": "qux"}[family]
+           "arrays": "qux", "customop": "qux", "nopar": "qux", "loose": "qux", "userop": "qux"}[family]
     if kind == "unknown_atom":
         for i in order:
             if is_atom_token(tokens[i]):
@@ -682,6 +724,8 @@ def gen_tokens(rng, family, depth):
         return gen_nopar(rng, depth)
     if family == "loose":
         return gen_loose(rng, depth)
+    if family == "userop":
+        return gen_userop(rng, depth)
     if family == "string":
         return gen_string(rng, depth)
     return gen_unit(rng, depth)
@@ -1016,6 +1060,7 @@ class SolverMachine(Machine):
                   "customop": ["1", "hyp(3;4)", "pow(2,3)", "(1)", "avg[1,3]", "1+qux"],
                   "nopar": ["1", "sqrt(4)", "(4)", "1+qux", "1+1"],
                   "loose": ["1", "1+2", "2*3", "8/2", "8/2*4", "1+qux"],
+                  "userop": ["1", "2 @3;", "1+1", "2 @3; + 1", "1+qux"],
                   "subset": ["1", "1+", "(1", "1+qux", "1+1"],
                   "string": ["a", "a+", "(a", "a+BAD", "a+a"],
                   "unit": ["m", "m*", "(m", "m*xyz", "m*s"]}[fam]
